@@ -1,7 +1,9 @@
 (* Property oracles of the wiring family, evaluated on the IMPLEMENTATION's observation of a case.
    They use only the static description of the scenario (types, interfaces, qualifiers, names:
    Model/Resolve.v records and [type_ok]/[func_ok]/[qual_ok]) and the observation; none of them
-   calls the dynamic model (do_get / run), so a defect shared by model and code is still seen. *)
+   calls the dynamic model (do_get / run), so a defect shared by model and code is still seen.  The one exception is
+   [early_created], which only delimits the CLASS of the known finding KF-C05a (which holders were created during
+   PrepareComponents): it asks the model of the tree, and a case counts as known only if model and code agree on it. *)
 From Coq Require Import List Arith Bool ZArith.
 From IocVerif Require Import Model.App Model.FactoryX Corr.Wiring.
 Import ListNotations.
@@ -330,8 +332,19 @@ Section Oracles.
 
   (* components created during PrepareComponents: eager post-processor components and everything they request.
      They are populated by the processors active at that moment only (KF-C05a). *)
+  (* ... "everything they request" under the pipeline that is active at that moment: without the further-matching
+     processor the candidates are not narrowed, so more components are requested than the complete pipeline would.  The
+     exact set is what the model of the tree has cached when its PrepareComponents loop ends *)
+  Definition has_entry (r : rstate) (h : name) : bool :=
+    match alookup h (L1 r), alookup h (L2 r), alookup h (L3 r) with None, None, None => false | _, _, _ => true end.
+  Definition prepared_cached (h : name) : bool :=
+    let sn := normalise repaired s in
+    match prepare_loop_xt repaired sn x (sorted_procs sn) (set_scanned finit) with
+    | (_, Ok st) => has_entry (reg st) h
+    | (_, Fail _ st) => has_entry (reg st) h
+    end.
   Definition early_created (h : name) : bool :=
-    existsb (fun p => is_proc p && eager p && (Nat.eqb p h || reaches p h)) all_names.
+    existsb (fun p => is_proc p && eager p && (Nat.eqb p h || reaches p h)) all_names || prepared_cached h.
 
   (* eager holders (post-processor components included) with a point that violates soundness, completeness or
      "a required point of a started component is never empty" *)
